@@ -3,7 +3,7 @@
    find min_chunk in the pool (unallocated + last tick's unused-unthrottled), whatever else the
    connections do in between. *)
 From Coq Require Import List NArith Bool Lia PeanoNat.
-From LTV.C12 Require Import ParamsGen.
+From LTV.C12 Require Import ParamsGen PolicyGen.
 From LTV.C12 Require Import Model ProofsA ProofsB ProofsC ProofsD.
 Import ListNotations.
 Local Open Scope N_scope.
